@@ -9,5 +9,6 @@ open GV.Poly
 #print axioms C20evalgen_evaluate
 #print axioms C20evalgen_evaluate_invariant
 #print axioms C20evalgen_getCoeff_lagrange
+#print axioms C20evalgen_revSpec_of_bits
 #print axioms exRevSpec
 #print axioms exPrimsFor
